@@ -23,7 +23,7 @@ func TestC36ACL(t *testing.T) {
 		"[ACL abstraction] generated access-control lists (0-10 pairs over 5 keys and 4 addresses, so keys repeat with equal or different addresses) and 4-16 operations GetOwner / SetOwner / GetAll; "+
 			"oracle: GetOwner(K) is nil iff K is not listed, otherwise one of the addresses listed for K and stable across reads; after SetOwner(K, A) GetOwner(K) == A until the next SetOwner(K, .), "+
 			"the owners of all other keys unchanged, no other key appears or disappears. non-trivial = a SetOwner or GetOwner on a key that the list names more than once with different addresses",
-		map[string]float64{"duplicate-key-different-addresses": 0.5, "set-owner-on-duplicated-key": 0.2},
+		map[string]float64{"duplicate-key-different-addresses": 0.35, "set-owner-on-duplicated-key": 0.12},
 		func(rt *rapid.T, c *harness.Case) {
 			keys := []string{"pos/MaxValidators", "gov/acl", "gov/upgrade", "auth/FeeMultipliers", "pocketcore/SessionNodeCount"}
 			addrs := []sdk.Address{sdk.Address(make([]byte, 20)), nil, nil, nil}
